@@ -7,6 +7,7 @@ import (
 	"encoding/binary"
 	"fmt"
 	"net"
+	"sync"
 	"sync/atomic"
 	"time"
 
@@ -66,6 +67,7 @@ type IPPool struct {
 	gateway   net.IP
 	available []net.IP
 	allocated map[string]net.IP // session ID -> IP
+	mu        sync.Mutex
 }
 
 // NewIPPool creates a new IP pool
@@ -105,6 +107,8 @@ func NewIPPool(network string, gateway string) (*IPPool, error) {
 
 // Allocate allocates an IP for a session
 func (p *IPPool) Allocate(sessionID string) net.IP {
+	p.mu.Lock()
+	defer p.mu.Unlock()
 	// A session that already holds an address keeps it.
 	if ip, ok := p.allocated[sessionID]; ok {
 		return ip
@@ -120,6 +124,8 @@ func (p *IPPool) Allocate(sessionID string) net.IP {
 
 // Release releases an IP back to the pool
 func (p *IPPool) Release(sessionID string) {
+	p.mu.Lock()
+	defer p.mu.Unlock()
 	if ip, ok := p.allocated[sessionID]; ok {
 		delete(p.allocated, sessionID)
 		p.available = append(p.available, ip)
@@ -655,6 +661,12 @@ func (s *Server) handleLCPTermRequest(session *Session, pkt *LCPPacket) {
 
 	// Terminate session
 	session.SetState(StateClosed)
+
+	// Release IP
+	if s.clientIPPool != nil {
+		s.clientIPPool.Release(session.SessionID)
+	}
+
 	s.sessions.RemoveSession(session.ID)
 }
 
@@ -953,10 +965,16 @@ func (s *Server) cleanupLoop(ctx context.Context) {
 			if timeout == 0 {
 				timeout = 5 * time.Minute
 			}
-			removed := s.sessions.CleanupExpired(timeout)
-			if removed > 0 {
+			removed := s.sessions.RemoveExpired(timeout)
+			// Release the addresses of the sessions that timed out
+			if s.clientIPPool != nil {
+				for _, session := range removed {
+					s.clientIPPool.Release(session.SessionID)
+				}
+			}
+			if len(removed) > 0 {
 				s.logger.Info("Cleaned up expired PPPoE sessions",
-					zap.Int("count", removed),
+					zap.Int("count", len(removed)),
 				)
 			}
 		}
